@@ -158,16 +158,26 @@ def check(run: Run) -> None:
             if a == nodep5 or a == ("const", None) or (a[0] == "new" and a[1] == "Constant") or (a[0] == "app" and a[1][0] == "global" and a[1][1].endswith("as_literal")):
                 continue
             n_l += 1
-            fresh = (a[0] == "app" and a[1][0] == "global" and a[1][1].endswith("_parse_source_for_lambda")) or (a[0] == "app" and a[1] == ("global", "copy.deepcopy"))
+            v5 = ("subscript", ("attr", ("param", rvn.pos_params[0]), "_lookup_dict"), ("attr", nodep5, "id"))
+
+            def _is_parse(x):
+                return x[0] == "app" and x[1][0] == "global" and x[1][1].endswith("_parse_source_for_lambda") and bool(x[2]) and x[2][0] == v5
+
+            fresh = _is_parse(a) or (a[0] == "app" and a[1] == ("global", "copy.deepcopy") and len(a[2]) == 1 and _is_parse(a[2][0]))
             run.check(fresh, "C05.R5", rvn, s, "inlined helper is a fresh parse of its source", f"a helper's AST is taken from {show(a)[:100]} instead of a fresh parse: the same node object is inlined at several call sites, and the in-place substitution of one call leaks into the others", "parse the helper afresh for every occurrence (or deep-copy it)", show(a))
     run.floor("C05.R5", n_l, 1, "helper-inlining return in _rewrite_captured_vars.visit_Name")
+    from ..lib import memoised_functions
+
+    for mf, deco in memoised_functions(m):
+        if mf.name in ("_parse_source_for_lambda", "rewrite_func_as_lambda", "_get_lambda_in_stream", "parse_as_ast"):
+            run.fail("C05.R5", mf, mf.node, f"{mf.name} is memoised with @{deco}: every occurrence of a helper (and every query built from the same function object) receives the same AST object, which the in-place substitution then changes for all of them", "parse afresh for every occurrence")
     # nested function results used by visit_Name must themselves be fresh parses
     for sub in [f for f in m.funcs.values() if f.parent_func is rvn]:
         fs = ctx.analysis(sub)
         for s, n in fs.returns():
             t = strip_sites(fs.term_of(s.value, n)) if s.value is not None else ("const", None)
             for a in unphi_terms(t):
-                ok = a == ("const", None) or (a[0] == "app" and a[1][0] == "global" and a[1][1].endswith("_parse_source_for_lambda")) or (a[0] == "app" and a[1] == ("global", "copy.deepcopy"))
+                ok = a == ("const", None) or (a[0] == "app" and a[1][0] == "global" and a[1][1].endswith("_parse_source_for_lambda") and bool(a[2]) and a[2][0] == ("param", sub.pos_params[0]))
                 run.check(ok, "C05.R5", sub, s, "helper parse wrapper returns a fresh parse or None", f"{sub.name} returns {show(a)[:100]}: a helper AST that is not freshly parsed (shared between call sites, then substituted in place)", "return _parse_source_for_lambda(x, None)", show(a))
 
 
